@@ -87,12 +87,29 @@ def build_case(u):
             rep_.append((k, v))
         script.append(rep_)
     driver = ("nb", "nb", "nb", "nb", "nb", "nb", "sync", "async")[u.below(8)]
-    return {"cfg": cfg, "base": base, "method": method, "script": script, "tail": u.choice(TAILS), "maxrep": u.range(1, 6), "driver": driver}
+    # one OID of the script may be sent in a non-minimal encoding: a sub-identifier prefixed with 0x80 octets (same value,
+    # other octets).  Whether such an OID is taken or ends the walk is not prescribed - the invariants are.
+    pad = None
+    cands = [(i, j) for i, r in enumerate(script) for j in range(len(r))]
+    if cands and u.below(5) == 0:
+        i, j = cands[u.below(len(cands))]
+        if i > 0 and script[i - 1] and u.bool():
+            script[i][j] = (script[u.below(i)] or script[i - 1])[0][0], u.choice(DATA)  # an OID that was sent before
+        pad = [i, j, (len(base) - 1) if u.bool() else u.range(2, len(base)), 1 + u.below(2)]
+    return {"cfg": cfg, "base": base, "method": method, "script": script, "tail": u.choice(TAILS), "maxrep": u.range(1, 6), "driver": driver, "pad": pad}
+
+
+def enc_oid_padded(arcs, pos, n):
+    """BER of an OID whose sub-identifier number `pos` (>= 2) carries n leading 0x80 octets (non-minimal, same value)."""
+    pos = max(2, min(pos, len(arcs) - 1))
+    head = rb.oid_content(tuple(arcs[:pos]))
+    whole = rb.oid_content(tuple(arcs))
+    return rb.tlv(rb.T_OID, whole[:len(head)] + b"\x80" * n + whole[len(head):])
 
 
 def describe(c):
     return {"cfg": c["cfg"].describe(), "_cfg": gen.cfg_to_json(c["cfg"]), "base": list(c["base"]), "method": c["method"],
-            "script": c["script"], "tail": c["tail"], "maxrep": c["maxrep"], "driver": c["driver"]}
+            "script": c["script"], "tail": c["tail"], "maxrep": c["maxrep"], "driver": c["driver"], "pad": c.get("pad")}
 
 
 def spec(c, uni):
@@ -198,7 +215,7 @@ def execute(G, c):
                 reply = [("__cycle%d" % (step - len(c["script"])), "int")]
         vbs = []
         acc = [y[1] for y in yields]
-        for key, vk in reply:
+        for j, (key, vk) in enumerate(reply):
             if key == "__last":
                 oid = seen_reqs[-1] or c["base"]
             elif key == "__repeat":
@@ -208,7 +225,12 @@ def execute(G, c):
             else:
                 oid = uni[key]
             st["k"] += 1
-            vbs.append(rb.varbind(rb.enc_oid(oid), value_of(vk, st["k"])[0]))
+            pd = c.get("pad")
+            if pd and step < len(c["script"]) and (step, j) == (pd[0], pd[1]) and len(oid) > 2:
+                name = enc_oid_padded(oid, pd[2], pd[3])
+            else:
+                name = rb.enc_oid(oid)
+            vbs.append(rb.varbind(name, value_of(vk, st["k"])[0]))
         return [ag.build_reply(cfg, req, vbs)]
 
     limit = len(c["script"]) + 3
@@ -231,6 +253,12 @@ def execute(G, c):
         if not arcs > prev:
             raise core.Failure("yielded-non-increasing", "%s: yielded %s after %s" % (info, g[0], rb.oid_text(prev)))
         prev = arcs
+    if c.get("pad"):
+        # a non-minimally encoded OID was in play: taking it or ending the walk there are both defensible, so only the
+        # invariants above (inside the subtree, strictly increasing, bounded number of requests) and the outcome class count
+        if out.kind == "exc" and not isinstance(out.exc, G.SnmpError):
+            raise core.Failure("walk-raised:" + type(out.exc).__name__, "%s: raised %r" % (info, out.exc))
+        return len(got), len(seen_reqs)
     if out.kind == "exc":
         e = out.exc
         if not (may_raise and isinstance(e, G.SnmpError)):
@@ -311,7 +339,7 @@ def exhaustive(rep, G):
 def replay(rep, case, body=None):
     G = drivers.load()
     c = {"cfg": gen.cfg_from_json(case["_cfg"]), "base": tuple(case["base"]), "method": case["method"],
-         "script": [[tuple(p) for p in r] for r in case["script"]], "tail": case["tail"], "maxrep": case["maxrep"], "driver": case["driver"]}
+         "script": [[tuple(p) for p in r] for r in case["script"]], "tail": case["tail"], "maxrep": case["maxrep"], "driver": case["driver"], "pad": case.get("pad")}
     try:
         execute(G, c)
     except core.Failure as f:
